@@ -264,6 +264,19 @@ def g_euclid(ctx, rng, i):
         q = t * g.Point(np.append(p * w, w))
         ok = np.allclose(_cart(q), p + v, atol=1e-9)
         ctx.judge("translation", bool(ok), [v, p], what="translation(v) does not map p to p+v", op="translation*p", nontrivial=True)
+    # ... and on collections of 5 ... 200 points at once (the action on a collection is the action on its elements)
+    for kk in (5, 63, 64, 200)[i % 2::2]:
+        pts = gen.coords(rng, (kk, dim), 9, mode).astype(float)
+        img = t * g.PointCollection(np.c_[pts, np.ones(kk)])
+        got = np.asarray(img.normalized_array, dtype=complex)[..., :-1]
+        ctx.judge("translation", bool(np.allclose(got, pts + np.asarray(v, dtype=float), atol=1e-9)), [v, kk], what=f"translation(v) does not map the {kk} points of a collection to p+v", op="translation*collection",
+                  nontrivial=True)
+        a_ = float(rng.uniform(-3, 3))
+        if dim == 2:
+            r_ = g.rotation(a_) * g.PointCollection(np.c_[pts, np.ones(kk)])
+            want = pts @ np.array([[np.cos(a_), -np.sin(a_)], [np.sin(a_), np.cos(a_)]]).T
+            ctx.judge("rotation2d", bool(np.allclose(np.asarray(r_.normalized_array, dtype=complex)[..., :-1], want, atol=1e-9)), [a_, kk],
+                      what=f"rotation(a) does not turn the {kk} points of a collection counter-clockwise by a", op="rotation*collection", nontrivial=True)
     f = gen.coords(rng, (dim,), 5, mode)
     f = np.where(f == 0, 2, f)
     s = g.scaling(*f.tolist())
@@ -402,6 +415,25 @@ def g_conics(ctx, rng, i):
         g.Transformation.from_points_and_conics(p1, p2, k1, k2)
     except Exception as e:
         ctx.judge("from_points_and_conics", False, [c1, r1, c2, r2, ts1, ts2], what=f"raised {type(e).__name__}: {e}", op="from_points_and_conics", feat={"exc": type(e).__name__})
+    # hyperbolas and parabolas with one of the three points at infinity (in any of the three positions, on either side)
+    hyp = g.Conic(np.diag([1.0, -1.0, -1.0]))  # x^2 - y^2 = 1
+    par = g.Conic(np.array([[1.0, 0, 0], [0, 0, -0.5], [0, -0.5, 0]]))  # y = x^2
+    hp = lambda u: g.Point(float(np.cosh(u)), float(np.sinh(u)))  # noqa: E731
+    pp = lambda x: g.Point(float(x), float(x * x))  # noqa: E731
+    us = [float(x) for x in rng.choice([-1.0, -0.5, 0.25, 0.75, 1.25], size=3, replace=False)]
+    finite_h, finite_p = [hp(u) for u in us], [pp(u) for u in us]
+    inf_h, inf_p = g.Point(np.array([1.0, gen.pick(rng, [1.0, -1.0]), 0.0]) * gen.pick(rng, [1, -2, 0.5])), g.Point(np.array([0.0, 1.0, 0.0]) * gen.pick(rng, [1, -3]))
+    pos = int(rng.integers(0, 3))
+    with_inf_h = list(finite_h)
+    with_inf_h[pos] = inf_h
+    with_inf_p = list(finite_p)
+    with_inf_p[pos] = inf_p
+    for a_, b_, ca, cb in ((with_inf_h, p2, hyp, k2), (p1, with_inf_h, k1, hyp), (with_inf_p, finite_h, par, hyp), (finite_p, with_inf_p, par, par)):
+        try:
+            g.Transformation.from_points_and_conics(a_, b_, ca, cb)
+        except Exception as e:
+            ctx.judge("from_points_and_conics", False, [[x.array for x in a_], [x.array for x in b_]], what=f"a point at infinity among the points: raised {type(e).__name__}: {e}",
+                      op="from_points_and_conics", feat={"exc": type(e).__name__, "at_infinity": True})
 
 
 GROUPS = [
